@@ -89,3 +89,19 @@ contract(P + "MoveImportsToTypeCheckingBlockVisitor._add_if_type_checking_block"
                               " and forall(range_(c, len(%s)), lambda j: nth(%s, j + 1) is nth(%s, j) and not %s) and (c == 0 or %s)))"
                               % (_NEWB, _OLD, _OLD, _NEWB, _OLD, _NEWB, _BLOCK, _OLD, _NEWB, _OLD, _IMPO.format(j="j"), _IMPO.format(j="c - 1")),
          })
+
+_ST = "nth(mover_stored(self), 0)"
+_PRE = "cst_removed(cst_with_tc_import(tree), self.import_items_to_be_moved)"
+contract(P + "MoveImportsToTypeCheckingBlockVisitor.transform_module_impl", props=["C16", "C15"], theories=TH, pure=False, modifies=["Mover.import_items_to_be_moved"],
+         params={"self": "Mover", "tree": "CstModule"}, result="CstModule",
+         requires={"stored": "mover_stored(self) is None or len(mover_stored(self)) == 1"},
+         ensures={
+             # nothing was stored for this visitor: only the TYPE_CHECKING / __future__ imports are requested
+             "post:nothing-stored": "implies(mover_stored(self) is None, result is cst_with_tc_import(tree))",
+             # otherwise: what is moved is what was stored minus everything from typing / mypy_extensions (needed at run time) ...
+             "post:moved-set": "implies(mover_stored(self) is not None, forall(self.import_items_to_be_moved, lambda it: item_module(it) != 'typing' and item_module(it) != 'mypy_extensions' and has(%s, it))"
+                               " and forall(%s, lambda it: implies(item_module(it) != 'typing' and item_module(it) != 'mypy_extensions', has(self.import_items_to_be_moved, it))))" % (_ST, _ST),
+             # ... exactly those items are removed from the tree that already carries the TYPE_CHECKING import, and the block for them is inserted into *that* tree
+             "post:order": "implies(mover_stored(self) is not None and len(self.import_items_to_be_moved) == 0, result is %s)" % _PRE,
+             "post:block-into-removed-tree": "implies(mover_stored(self) is not None and len(self.import_items_to_be_moved) > 0, len(m_body(result)) == len(m_body(%s)) + 1)" % _PRE,
+         })
